@@ -14,7 +14,7 @@ def _extend(base):
     ns = {
         "__module__": __name__,
         "__qualname__": base.__name__,
-        "__xpmid__": f"xvmodels.zoo.{base.__name__.lower()}",
+        "__xpmid__": base.__dict__["__xpmid__"] if isinstance(base.__dict__.get("__xpmid__"), str) else f"xvmodels.zoo.{base.__name__.lower()}",
         "__annotations__": {
             "aa_first": Param[str],
             "zz_d": Param[int],
@@ -44,6 +44,8 @@ LeafB = type(
     {"__module__": __name__, "__qualname__": "LeafB", "__xpmid__": "xvmodels.zoo.leafb", "__annotations__": {"x": Param[int], "zz_b": Param[int]}, "x": 0, "zz_b": 1},
 )
 Other = _extend(zoo.Other)
+Named = _extend(zoo.Named)
+NamedChild = type("NamedChild", (Named,), {"__module__": __name__, "__qualname__": "NamedChild", "__xpmid__": "xvmodels.zoo.namedchild", "__annotations__": {"w": Param[int]}, "w": 0})
 Node = _extend(zoo.Node)
 # the default of a configuration-typed parameter is an instance of the edited class
 Node.__annotations__["dflt"] = Param[Leaf]
